@@ -6,7 +6,7 @@
 
 namespace verif::seq {
 
-enum flavour { F_POINT, F_SCAN, F_SHAPE };
+enum flavour { F_POINT, F_SCAN, F_SHAPE, F_FAULT };
 
 struct gen_params {
   flavour fl = F_POINT;
@@ -292,6 +292,9 @@ inline scase generate_case(vrng& r, int cfg, const gen_params& gp, stats* st) {
       model.clear();
     } else if (gp.fl == F_SHAPE) {
       o.kind = RELOAD;
+    } else if (gp.fl == F_FAULT) {
+      o.kind = r.chance(1, 2) ? INS_LONGVAL : INS_LONGKEY;
+      o.key = r.pick(u.keys);
     } else {
       o.kind = EMPTY;
     }
